@@ -48,7 +48,7 @@ func genConn(t *rapid.T) ConnCase {
 		if alpn == "h2" {
 			// the connection goes idle after its last stream ended normally or abnormally
 			pl.LastStream = rapid.SampledFrom([]string{"", "", "client-rst", "early-response", "malformed", "self-dependent"}).Draw(t, "last")
-			pl.H2Extra = rapid.SliceOfNDistinct(rapid.SampledFrom([]string{"wu-conn", "wu-stream", "priority", "ping", "settings"}), 0, 3, rapid.ID[string]).Draw(t, "extra")
+			pl.H2Extra = rapid.SliceOfNDistinct(rapid.SampledFrom([]string{"wu-conn", "wu-stream", "priority", "ping", "settings", "priority-flood"}), 0, 3, rapid.ID[string]).Draw(t, "extra")
 		}
 		return ConnCase{"idle", pl}
 	case 5:
@@ -61,7 +61,7 @@ func genConn(t *rapid.T) ConnCase {
 	default:
 		pl := rig.ConnPlan{Kind: "serve", ALPN: alpn, NReq: rapid.IntRange(0, 3).Draw(t, "nreq"), Limit: -1}
 		if alpn == "h2" {
-			pl.H2Extra = rapid.SliceOfNDistinct(rapid.SampledFrom([]string{"wu-conn", "wu-stream", "priority", "ping", "settings"}), 0, 3, rapid.ID[string]).Draw(t, "extra")
+			pl.H2Extra = rapid.SliceOfNDistinct(rapid.SampledFrom([]string{"wu-conn", "wu-stream", "priority", "ping", "settings", "priority-flood"}), 0, 3, rapid.ID[string]).Draw(t, "extra")
 		}
 		return ConnCase{"normal", pl}
 	}
